@@ -227,6 +227,9 @@ def unit_two_columns(a):
     sweep(stats, [{"sub": "interp", "headers": ["kind", "price-book"], "values": ["book", "42"], "templates": ["<price-<kind>>", "<kind>", "x<price-<kind>>y <price-book>", "<<kind>>", "<price-<kind>"]},
                   {"sub": "interp", "headers": ["a", "ab"], "values": ["b", "1"], "templates": ["<a<a>>", "<<a>b>", "<ab>", "<a><a<a>>"]},
                   {"sub": "interp", "headers": ["g\nn", "z"], "values": ["V", "W"], "templates": ["a <g", "n> b", "<g\nn>", "<z>", "<g", "n>"]},
+                  {"sub": "interp", "headers": ["g\nn", "z"], "values": ["V", "W"], "templates": ["a <g", "n> b", "<z>", "x <g", "n>"]},
+                  {"sub": "interp", "headers": ["g / n"], "values": ["V"], "templates": ["a <g", "n> b", "c"]},
+                  {"sub": "interp", "headers": ["g\tn", "g n", "g|n"], "values": ["1", "2", "3"], "templates": ["<g", "n>", "<g", "n>"]},
                   {"sub": "interp", "headers": ["g", "n"], "values": ["V\nW", "<g"], "templates": ["<n>", "<g>", "x <n", "g> y"]},
                   {"sub": "interp", "headers": ["h"], "values": ["v"], "templates": ["<h", "h>", "<h>", "h", ">", "<"]}], check_interp)
     return stats
